@@ -140,4 +140,25 @@ def canonLabels (hc : Color → Nat) : List Color → Asg
 /-- `canonical_triples`: every blank node replaced by `BNode("cb" + labels[node])` -/
 def canonicalTriples (labels : Asg) (g : Graph) : Graph := g.rename labels.fn
 
+/-! ### a concrete (non-cryptographic) instance of the hash parameters, for the driver's diagnostic `refine` op:
+    like the code, the colour hash is a SUM of per-item hashes (order-independent) -/
+
+def hashMod : Nat := 2305843009213693951   -- 2^61 - 1
+
+def termHash (t : Term) : Nat := ((t.id + 1) * 1000003 + (if t.blank then 7 else 11)) * 2654435761 % hashMod
+
+def itemHash : Item → Nat
+  | .out p w => ((termHash p * 31 + w) * 6364136223846793005 + 1442695040888963407) % hashMod
+  | .inn w p => ((termHash p * 37 + w) * 3935559000370003845 + 2691343689449507681) % hashMod
+  | .indiv k => ((k + 1) * 11400714819323198485 + 1) % hashMod
+
+def sumHash (its : List Item) : Nat := (its.foldl (fun acc i => acc + itemHash i) 0) % hashMod + 1
+
+/-- partition of the blank nodes after `_refine(_initial_color(), …)`, as lists of ids -/
+def refinePartition (g : Graph) : List (List Nat) :=
+  let c0 := initialColor g
+  let fuel := 4 * (c0.length + (bnodes g).length + 2) * (c0.length + (bnodes g).length + 2)
+  let cs := refine sumHash termHash g fuel c0 c0
+  (cs.filter (fun c => c.ground.isNone)).map (fun c => c.nodes.map (·.id))
+
 end RV.C14
